@@ -16,22 +16,26 @@ import (
 )
 
 var profiles = map[string]Profile{
-	"basic": {Name: "basic", Clients: 2, Resources: 3, Stimuli: 14, Refs: false, Unsub: true, Clean: true},
-	"refs":  {Name: "refs", Clients: 2, Resources: 4, Stimuli: 18, Refs: true, Collections: true, Unsub: true, Clean: true},
-	"churn": {Name: "churn", Clients: 3, Resources: 4, Stimuli: 22, Refs: true, Collections: true, Unsub: true, Faults: true, Disconnect: true, Evict: true, Deletes: true, Clean: true, Endgame: true},
-	"wild":  {Name: "wild", Clients: 3, Resources: 4, Stimuli: 24, Refs: true, Collections: true, Unsub: true, Gets: true, Faults: true, Disconnect: true, Evict: true, Deletes: true, Endgame: true},
-	"long":  {Name: "long", Clients: 2, Resources: 3, Stimuli: 14, Unsub: true, Gets: false, Clean: true, LongRids: true, Endgame: true},
-	"access": {Name: "access", Clients: 2, Resources: 3, Stimuli: 22, Unsub: true, Reaccess: true, Tokens: true, Calls: true, Faults: true, Denials: true, Clean: true},
-	"accrefs": {Name: "accrefs", Clients: 2, Resources: 4, Stimuli: 24, Refs: true, Collections: true, Unsub: true, Reaccess: true, Tokens: true, Calls: true, Denials: true, Clean: true},
-	"tinyacc": {Name: "tinyacc", Clients: 1, Resources: 2, Stimuli: 16, Refs: true, Unsub: true, Reaccess: true, Tokens: true, Calls: true, Denials: true, Clean: true},
-	"tinyrefs": {Name: "tinyrefs", Clients: 1, Resources: 3, Stimuli: 16, Refs: true, Collections: true, Unsub: true, Clean: true},
-	"scacc": {Name: "scacc", Clients: 2, Resources: 3, Refs: true, Unsub: true, Reaccess: true, Tokens: true, Calls: true, Denials: true, Scenario: "acc"},
-	"accchurn": {Name: "accchurn", Clients: 3, Resources: 3, Stimuli: 24, Unsub: true, Reaccess: true, Tokens: true, Calls: true, Denials: true, Resets: true, Disconnect: true, Clean: true, Endgame: true},
-	"reset": {Name: "reset", Clients: 2, Resources: 4, Stimuli: 22, Refs: true, Collections: true, Unsub: true, Resets: true, Clean: true},
+	"basic":     {Name: "basic", Clients: 2, Resources: 3, Stimuli: 14, Refs: false, Unsub: true, Clean: true},
+	"refs":      {Name: "refs", Clients: 2, Resources: 4, Stimuli: 18, Refs: true, Collections: true, Unsub: true, Clean: true},
+	"churn":     {Name: "churn", Clients: 3, Resources: 4, Stimuli: 22, Refs: true, Collections: true, Unsub: true, Faults: true, Disconnect: true, Evict: true, Deletes: true, Clean: true, Endgame: true},
+	"wild":      {Name: "wild", Clients: 3, Resources: 4, Stimuli: 24, Refs: true, Collections: true, Unsub: true, Gets: true, Faults: true, Disconnect: true, Evict: true, Deletes: true, Endgame: true},
+	"long":      {Name: "long", Clients: 2, Resources: 3, Stimuli: 14, Unsub: true, Gets: false, Clean: true, LongRids: true, Endgame: true},
+	"access":    {Name: "access", Clients: 2, Resources: 3, Stimuli: 22, Unsub: true, Reaccess: true, Tokens: true, Calls: true, Faults: true, Denials: true, Clean: true},
+	"accrefs":   {Name: "accrefs", Clients: 2, Resources: 4, Stimuli: 24, Refs: true, Collections: true, Unsub: true, Reaccess: true, Tokens: true, Calls: true, Denials: true, Clean: true},
+	"tinyacc":   {Name: "tinyacc", Clients: 1, Resources: 2, Stimuli: 16, Refs: true, Unsub: true, Reaccess: true, Tokens: true, Calls: true, Denials: true, Clean: true},
+	"tinyrefs":  {Name: "tinyrefs", Clients: 1, Resources: 3, Stimuli: 16, Refs: true, Collections: true, Unsub: true, Clean: true},
+	"scacc":     {Name: "scacc", Clients: 2, Resources: 3, Refs: true, Unsub: true, Reaccess: true, Tokens: true, Calls: true, Denials: true, Scenario: "acc"},
+	"accchurn":  {Name: "accchurn", Clients: 3, Resources: 3, Stimuli: 24, Unsub: true, Reaccess: true, Tokens: true, Calls: true, Denials: true, Resets: true, Disconnect: true, Clean: true, Endgame: true},
+	"thr1":      {Name: "thr1", Clients: 3, Resources: 4, Stimuli: 22, Refs: true, Collections: true, Unsub: true, Resets: true, Reaccess: true, Denials: true, Disconnect: true, Clean: true, Throttle: 1},
+	"thr2":      {Name: "thr2", Clients: 3, Resources: 4, Stimuli: 22, Refs: true, Collections: true, Unsub: true, Resets: true, Reaccess: true, Denials: true, Disconnect: true, Clean: true, Throttle: 2},
+	"scthr1":    {Name: "scthr1", Clients: 3, Resources: 4, Refs: true, Collections: true, Unsub: true, Resets: true, Denials: true, Disconnect: true, Clean: true, Throttle: 1, Scenario: "thr"},
+	"scthr2":    {Name: "scthr2", Clients: 3, Resources: 4, Refs: true, Collections: true, Unsub: true, Resets: true, Denials: true, Disconnect: true, Clean: true, Throttle: 2, Scenario: "thr"},
+	"reset":     {Name: "reset", Clients: 2, Resources: 4, Stimuli: 22, Refs: true, Collections: true, Unsub: true, Resets: true, Clean: true},
 	"malformed": {Name: "malformed", Clients: 2, Resources: 4, Stimuli: 26, Refs: true, Collections: true, Unsub: true, Calls: true, Malformed: true, Clean: true, Endgame: true},
-	"stop":  {Name: "stop", Clients: 3, Resources: 4, Stimuli: 20, Refs: true, Collections: true, Unsub: true, Calls: true, Disconnect: true, Evict: true, StopAt: true},
-	"query": {Name: "query", Clients: 3, Resources: 3, Stimuli: 22, Unsub: true, Queries: true, Faults: true, Clean: true, Endgame: true},
-	"gets":  {Name: "gets", Clients: 2, Resources: 4, Stimuli: 18, Refs: true, Collections: true, Unsub: true, Gets: true, Faults: true, Clean: true},
+	"stop":      {Name: "stop", Clients: 3, Resources: 4, Stimuli: 20, Refs: true, Collections: true, Unsub: true, Calls: true, Disconnect: true, Evict: true, StopAt: true},
+	"query":     {Name: "query", Clients: 3, Resources: 3, Stimuli: 22, Unsub: true, Queries: true, Faults: true, Clean: true, Endgame: true},
+	"gets":      {Name: "gets", Clients: 2, Resources: 4, Stimuli: 18, Refs: true, Collections: true, Unsub: true, Gets: true, Faults: true, Clean: true},
 }
 
 func runOne(s int64, p Profile, out string) {
@@ -126,6 +130,24 @@ func main() {
 					os.WriteFile(filepath.Join(*out, fmt.Sprintf("%s-%d.history.json", p.Name, s)),
 						[]byte(fmt.Sprintf(`{"seed":%d,"profile":%s,"crashed":true,"actions":[%s]}`, s, pj, strings.Join(acts, ",\n"))), 0o644)
 				} else {
+					// a stall (work pending, no worker runnable) must be a property of the history, not of this run's
+					// timing: it is kept only when re-executing the recorded actions in a fresh process stalls again
+					tp := filepath.Join(*out, fmt.Sprintf("%s-%d.trace", p.Name, s))
+					hp := filepath.Join(*out, fmt.Sprintf("%s-%d.history.json", p.Name, s))
+					if tb, err := os.ReadFile(tp); err == nil && strings.Contains(string(tb), "\nSTALL\t") {
+						for try := 0; try < 2; try++ {
+							rd := filepath.Join(*out, fmt.Sprintf("recheck-%d-%d", s, try))
+							c2, cancel2 := context.WithTimeout(context.Background(), 90*time.Second)
+							exec.CommandContext(c2, os.Args[0], "-replay", hp, "-out", rd).Run()
+							cancel2()
+							rb, err := os.ReadFile(filepath.Join(rd, "replay.trace"))
+							os.RemoveAll(rd)
+							if err == nil && !strings.Contains(string(rb), "\nSTALL\t") {
+								os.WriteFile(tp, append(rb, []byte("NOTE\tstall-not-reproduced\n")...), 0o644)
+								break
+							}
+						}
+					}
 					for _, l := range strings.Split(string(outb), "\n") {
 						if strings.HasPrefix(l, "STEPS\t") {
 							fmt.Sscanf(l[6:], "%d", &r.steps)
